@@ -59,6 +59,8 @@ type pCtrl struct {
 	Sec    []pSec   `json:"sec"`
 	Desc   string   `json:"desc"`
 	Extra  []string `json:"extra,omitempty"` // raw extra comment lines
+	// Outside: the controller's file is matched by no controllerGlobs pattern (the project still contains and compiles it)
+	Outside bool `json:"outside,omitempty"`
 }
 
 type pSig struct {
